@@ -3,6 +3,13 @@
 //! Every decision of a run is made through `Tape::draw(n)`. In search mode the value comes from
 //! a SplitMix64 generator seeded with the run seed; in replay mode it comes from a recorded tape.
 //! The values actually used are recorded, so a run is a pure function of its recorded tape.
+//!
+//! The tape is a tree: `begin_group()` / `end_group()` bracket the draws that belong to one generated thing
+//! (one element of a document, one operation of a history, one include file ...). In replay mode the draws
+//! inside a group come from the corresponding recorded group only, so the shrinker can delete or empty a whole
+//! group without shifting the values that its siblings will see.
+
+use serde_json::Value;
 
 #[derive(Clone)]
 pub struct SplitMix64(pub u64);
@@ -43,33 +50,131 @@ pub fn hash_bytes(h0: u64, s: &[u8]) -> u64 {
     h
 }
 
+#[derive(Clone, Debug, PartialEq, Eq)]
+pub enum TNode {
+    V(u64),
+    G(Vec<TNode>),
+}
+
+pub fn count_values(nodes: &[TNode]) -> usize {
+    nodes
+        .iter()
+        .map(|n| match n {
+            TNode::V(_) => 1,
+            TNode::G(c) => count_values(c),
+        })
+        .sum()
+}
+
+pub fn count_groups(nodes: &[TNode]) -> usize {
+    nodes
+        .iter()
+        .map(|n| match n {
+            TNode::V(_) => 0,
+            TNode::G(c) => 1 + count_groups(c),
+        })
+        .sum()
+}
+
+pub fn to_json(nodes: &[TNode]) -> Value {
+    Value::Array(
+        nodes
+            .iter()
+            .map(|n| match n {
+                TNode::V(v) => Value::from(*v),
+                TNode::G(c) => to_json(c),
+            })
+            .collect(),
+    )
+}
+
+pub fn from_json(v: &Value) -> Vec<TNode> {
+    match v.as_array() {
+        Some(a) => a
+            .iter()
+            .map(|x| if x.is_array() { TNode::G(from_json(x)) } else { TNode::V(x.as_u64().unwrap_or(0)) })
+            .collect(),
+        None => Vec::new(),
+    }
+}
+
 pub struct Tape {
     rng: SplitMix64,
-    replay: Option<Vec<u64>>,
-    pos: usize,
-    pub rec: Vec<u64>,
+    /// replay mode: stack of (nodes of the level, position)
+    replay: Option<Vec<(Vec<TNode>, usize)>>,
+    /// recording (both modes): stack of open groups, the first entry is the root
+    rec_stack: Vec<Vec<TNode>>,
+    count: usize,
     /// hard cap on the number of draws of one run, a generator bug must not hang the harness
     pub limit: usize,
 }
 
 impl Tape {
     pub fn from_seed(seed: u64) -> Tape {
-        Tape {
-            rng: SplitMix64(seed),
-            replay: None,
-            pos: 0,
-            rec: Vec::new(),
-            limit: 4_000_000,
+        Tape { rng: SplitMix64(seed), replay: None, rec_stack: vec![Vec::new()], count: 0, limit: 4_000_000 }
+    }
+
+    pub fn from_replay(nodes: Vec<TNode>) -> Tape {
+        Tape { rng: SplitMix64(0), replay: Some(vec![(nodes, 0)]), rec_stack: vec![Vec::new()], count: 0, limit: 4_000_000 }
+    }
+
+    /// the recorded tape (closes groups that are still open, e.g. after a panic)
+    pub fn take_record(&mut self) -> Vec<TNode> {
+        while self.rec_stack.len() > 1 {
+            let g = self.rec_stack.pop().unwrap();
+            self.rec_stack.last_mut().unwrap().push(TNode::G(g));
+        }
+        std::mem::take(&mut self.rec_stack[0])
+    }
+
+    pub fn begin_group(&mut self) {
+        self.rec_stack.push(Vec::new());
+        if let Some(stack) = &mut self.replay {
+            let (nodes, pos) = stack.last_mut().unwrap();
+            // the next recorded group of this level, if there is one; values in front of it belong to draws that
+            // are no longer made and are skipped
+            let mut children = Vec::new();
+            let mut p = *pos;
+            while p < nodes.len() {
+                if let TNode::G(c) = &mut nodes[p] {
+                    children = std::mem::take(c);
+                    p += 1;
+                    *pos = p;
+                    break;
+                }
+                p += 1;
+            }
+            stack.push((children, 0));
         }
     }
 
-    pub fn from_replay(values: Vec<u64>) -> Tape {
-        Tape {
-            rng: SplitMix64(0),
-            replay: Some(values),
-            pos: 0,
-            rec: Vec::new(),
-            limit: 4_000_000,
+    pub fn end_group(&mut self) {
+        if self.rec_stack.len() > 1 {
+            let g = self.rec_stack.pop().unwrap();
+            self.rec_stack.last_mut().unwrap().push(TNode::G(g));
+        }
+        if let Some(stack) = &mut self.replay {
+            if stack.len() > 1 {
+                stack.pop();
+            }
+        }
+    }
+
+    fn next_raw(&mut self) -> u64 {
+        match &mut self.replay {
+            Some(stack) => {
+                let (nodes, pos) = stack.last_mut().unwrap();
+                // the next recorded value of this level; a group standing here belongs to something that is no
+                // longer generated and is left for a later begin_group
+                match nodes.get(*pos) {
+                    Some(TNode::V(v)) => {
+                        *pos += 1;
+                        *v
+                    }
+                    _ => 0,
+                }
+            }
+            None => self.rng.next(),
         }
     }
 
@@ -78,35 +183,23 @@ impl Tape {
         if n <= 1 {
             return 0;
         }
-        if self.rec.len() >= self.limit {
+        if self.count >= self.limit {
             return 0;
         }
-        let v = match &self.replay {
-            Some(values) => {
-                let v = values.get(self.pos).copied().unwrap_or(0);
-                self.pos += 1;
-                v % n
-            }
-            None => self.rng.next() % n,
-        };
-        self.rec.push(v);
+        self.count += 1;
+        let v = self.next_raw() % n;
+        self.rec_stack.last_mut().unwrap().push(TNode::V(v));
         v
     }
 
     /// raw 64 bit value (used for sub-seeds and hash keys)
     pub fn draw_u64(&mut self) -> u64 {
-        if self.rec.len() >= self.limit {
+        if self.count >= self.limit {
             return 0;
         }
-        let v = match &self.replay {
-            Some(values) => {
-                let v = values.get(self.pos).copied().unwrap_or(0);
-                self.pos += 1;
-                v
-            }
-            None => self.rng.next(),
-        };
-        self.rec.push(v);
+        self.count += 1;
+        let v = self.next_raw();
+        self.rec_stack.last_mut().unwrap().push(TNode::V(v));
         v
     }
 
@@ -125,12 +218,5 @@ impl Tape {
 
     pub fn pick_str<'a>(&mut self, items: &[&'a str]) -> &'a str {
         items[self.draw(items.len() as u64) as usize]
-    }
-
-    pub fn exhausted_replay(&self) -> bool {
-        match &self.replay {
-            Some(v) => self.pos > v.len(),
-            None => false,
-        }
     }
 }
